@@ -20,6 +20,21 @@ def sort_pre(descending=False):
     return f
 
 
+def dup_index_frame(order, s):
+    """A and B receive DataFrames whose row labels repeat; B's rows are permuted together with their labels"""
+    import pandas as pd
+    inner = pre_of(order, s)
+
+    def f(x, t):
+        a = np.array(x, dtype=float)
+        df = pd.DataFrame(a, columns=["c%d" % i for i in range(a.shape[1])], index=[i % 3 for i in range(len(a))])
+        if order == "orig":
+            return df
+        perm = np.random.RandomState((s * 31 + t) % (2 ** 32)).permutation(len(a))
+        return df.iloc[perm]
+    return f
+
+
 def pre_of(order, s):
     return perm_pre(s) if order == "perm" else sort_pre(order == "desc")
 
@@ -74,6 +89,19 @@ def run(ctx):
         order = ("perm", "asc", "desc")[i % 3]
         pre = pre_of(order, s)
         full.append(P.two_runs("KdqTreeBatch", p, p, items, s, "Equal", feed_b=lambda d, x, t, pre=pre: d.update(pre(x, t)), pre_b=pre, extra={"order": order}))
+    # DataFrames with repeated row labels: every row counts, wherever it stands
+    for fam in ("HDDDM", "KdqTreeBatch", "NNDVI"):
+        for i in range(2 if q else 10):
+            p = P.default_params(fam, rng)
+            if fam == "HDDDM":
+                p["detect_batch"] = 3
+            items = P.gen_items(fam, rng, rng.randint(6, 9))
+            s = rng.randrange(10 ** 6)
+            pa, pb = dup_index_frame("orig", s), dup_index_frame("perm", s)
+            t = P.two_runs(fam, p, p, items, s, "Equal", feed_a=lambda d, x, tt, pa=pa: d.update(pa(x, tt)), pre_a=pa,
+                           feed_b=lambda d, x, tt, pb=pb: d.update(pb(x, tt)), pre_b=pb, restrict=(lambda nums: nums) if fam != "NNDVI" else None,
+                           extra={"order": "dupindex"})
+            full.append(t)
     rep = lambda ts: (lambda i: {"fam": ts[i]["fam"], "pa": ts[i]["pa"], "items": ts[i]["items"], "seed": ts[i]["seed"], "rel": ts[i]["cfg"]["rel"], "order": ts[i].get("order", "perm")})
     # NNDVI's tag is a digest of the retained reference IN ROW ORDER: blank it (the permuted run retains permuted rows)
     for t in full:
@@ -90,6 +118,15 @@ def run(ctx):
 
 def replay(ctx, bundle):
     r = bundle["replay"]
+    if r.get("order") == "dupindex":
+        pa, pb = dup_index_frame("orig", r["seed"]), dup_index_frame("perm", r["seed"])
+        t = P.two_runs(r["fam"], r["pa"], r["pa"], r["items"], r["seed"], "Equal", feed_a=lambda d, x, tt: d.update(pa(x, tt)), pre_a=pa,
+                       feed_b=lambda d, x, tt: d.update(pb(x, tt)), pre_b=pb)
+        if r["fam"] == "NNDVI":
+            for e in t["ev"]:
+                e["a"]["tag"] = e["b"]["tag"] = ""
+        ctx.validate("Product", [t], "replay", replay=lambda i: r)
+        return ctx.finish()
     pre = pre_of(r.get("order", "perm"), r["seed"])
     fb = lambda d, x, t: d.update(pre(x, t))
     restrict = (lambda nums: nums[:1]) if r["rel"] == "EqualWhileAgree" else None
